@@ -133,8 +133,10 @@ def handle_events(sol_tuple, events, consts, direction, is_terminal, attributes)
         g = D.ar_numpy.stack(g)
         g_new = D.ar_numpy.stack(g_new)
 
-        up = up | (((g <= 0) & (g_new >= 0)) | ((g <= 0) & (g_cen >= 0)) | ((g_cen <= 0) & (g_new >= 0)))
-        down = down | ((g >= 0) & (g_new <= 0)) | ((g >= 0) & (g_cen <= 0)) | ((g_cen >= 0) & (g_new <= 0))
+        # the narrower windows sit at the rounding-noise level of the interpolant: they only decide what the wider ones left open
+        undecided = ~(up | down)
+        up = up | (undecided & (((g <= 0) & (g_new >= 0)) | ((g <= 0) & (g_cen >= 0)) | ((g_cen <= 0) & (g_new >= 0))))
+        down = down | (undecided & (((g >= 0) & (g_new <= 0)) | ((g >= 0) & (g_cen <= 0)) | ((g_cen >= 0) & (g_new <= 0))))
 
     up = success & up
     down = success & down
